@@ -284,3 +284,13 @@ func verifDumpExpression(b *strings.Builder, e *tree.Expression) {
 		b.WriteString(`("null")`)
 	}
 }
+
+// VerifCallBuiltin calls a function of the library a fresh runner offers to scripts (the built-ins
+// registered by newFunctionStorer, with an RNG seeded by seed) the way the evaluator does.
+func VerifCallBuiltin(seed, name string, args []*variable.Value) (result *variable.Value, err error) {
+	r, err := rng.NewRNG(seed)
+	if err != nil {
+		return nil, err
+	}
+	return newFunctionStorer(r).call(name, args)
+}
